@@ -25,6 +25,7 @@ type Pool struct {
 	env     []string
 	n       int
 	timeout time.Duration
+	dir     string // working directory of the workers ("" = inherited)
 	Runs    int64
 	Deaths  int64
 }
@@ -70,6 +71,7 @@ func NewPool(bin string, args []string, env []string, n int, timeout time.Durati
 func (p *Pool) start() (*workerProc, error) {
 	cmd := exec.Command(p.bin, p.args...)
 	cmd.Env = append(os.Environ(), p.env...)
+	cmd.Dir = p.dir
 	in, err := cmd.StdinPipe()
 	if err != nil {
 		return nil, err
@@ -343,6 +345,12 @@ func (p *Pool) Run(specs []*Spec, progress func(done int)) []*Result {
 // path of watchdog verdicts, so it gets three times the pool's per-run wall-clock limit.
 func (p *Pool) RunFresh(spec *Spec) *Result {
 	p2 := p
+	if len(spec.Env) > 0 {
+		q := *p
+		q.env = append(append([]string{}, p.env...), spec.Env...)
+		q.dir = "/"
+		p2 = &q
+	}
 	w, err := p2.start()
 	if err != nil {
 		return &Result{ID: spec.ID, Fatal: "cannot start worker: " + err.Error(), FatalClass: "infra"}
